@@ -152,6 +152,14 @@ T.update({
    demo="demo_c19.rs (wrappers/tokio/impls/tokio/inner/tests)",
    catches={"C19":"scenario:notify-4:panic / notify-5:panic (after strengthening: scenarios with waiters aborted or giving up while notify_waiters broadcasts)"}),
 })
+
+T.update({
+ "C17b": dict(property="C17", run_checks=["C17"],
+   change="future::JoinHandle::poll stores the waker only if none is stored yet: a handle polled once and then awaited from another task keeps the first poller's waker",
+   needs="a JoinHandle polled once while the target is still running, then polled with a different waker (moved to another task, or put into a combinator with its own waker), target completing after that",
+   demo="demo_c17.rs",
+   catches={"C17":"async-program-deadlocked (after strengthening, made before the change was run: JoinHandles were only ever awaited by their spawner; new op AwaitMoved polls the handle once and hands it to a helper task, in generated programs and three fixed ones)"}),
+})
 for k, v in T.items():
     d = f"/verif/seeded/{k}"
     if not os.path.isdir(d):
